@@ -2,6 +2,8 @@
 // and the REAL GenericSolver (mtest/src/GenericSolver.cxx), all compiled from the working tree.
 //   SEQ <algo> <np> (pname pvalue)* <dim> <niter> <eeps> <seps> then niter x (u1[dim] du[dim] r[dim])
 //        -> O <niter*dim values, %a>        (initialize(dim); preExecuteTasks(); execute(...,iter) for iter=1..niter)
+//   LOOP <algo> <np> (pname pvalue)* <dim> <niter> <eeps> <seps> <kk> <xs[dim]> <M[dim*dim]> <x0[dim]>
+//        -> L <(niter+1)*dim values>   closed loop x_{n+1} = accelerate(G(x_n)), G(x) = xs + M (x - xs), du = x - G(x), r = kk*du
 //   SOLVE <algo|none> <np> (pname pvalue)* <N> <A: N*N> <b: N> <g> <s> <ppolicy> <ktype> <rounding> <eeps> <seps> <iterMax>
 //         <mSubSteps> <nsteps> <t0 .. tnsteps>
 //        -> R <done|raise> <iterations> <subSteps> U <nsteps*N values of u0 after each step, %a>
@@ -161,6 +163,34 @@ int main() {
           for (auto& x : r) x = rd(is);
           a->execute(u1, du, r, eeps, seps, static_cast<unsigned short>(it));
           for (const auto& x : u1) std::printf(" %a", x);
+        }
+        a->postExecuteTasks();
+        std::printf("\n");
+      } else if (cmd == "LOOP") {
+        auto a = make_algorithm(is);
+        std::size_t dim, niter;
+        is >> dim >> niter;
+        const real eeps = rd(is), seps = rd(is), kk = rd(is);
+        std::vector<real> xs(dim), M(dim * dim);
+        tfel::math::vector<real> x(dim), u1(dim), du(dim), r(dim);
+        for (auto& v : xs) v = rd(is);
+        for (auto& v : M) v = rd(is);
+        for (auto& v : x) v = rd(is);
+        a->initialize(static_cast<unsigned short>(dim));
+        a->preExecuteTasks();
+        std::printf("L");
+        for (const auto& v : x) std::printf(" %a", v);
+        for (std::size_t it = 1; it <= niter; ++it) {
+          for (std::size_t i = 0; i != dim; ++i) {
+            real g = xs[i];
+            for (std::size_t j = 0; j != dim; ++j) g += M[i * dim + j] * (x[j] - xs[j]);
+            u1[i] = g;
+            du[i] = x[i] - g;
+            r[i] = kk * du[i];
+          }
+          a->execute(u1, du, r, eeps, seps, static_cast<unsigned short>(it));
+          x = u1;
+          for (const auto& v : x) std::printf(" %a", v);
         }
         a->postExecuteTasks();
         std::printf("\n");
